@@ -327,8 +327,11 @@ func GenRecSystem(t *rapid.T) (*Grammar, map[string]bool) {
 			// nothing yields one -- ( @( x? ) )! , ( @( x* ) y? )!
 			used["after_nonempty_group_satisfied_by_an_empty_capture"] = true
 			body := Cap(Group(rapid.SampledFrom([]string{"?", "*"}).Draw(t, "necap"), c.leaf()))
-			if rapid.Bool().Draw(t, "netail") {
+			switch rapid.IntRange(0, 2).Draw(t, "netail") {
+			case 0:
 				return Group("!", Seq(body, Group("?", leaf())))
+			case 1:
+				return Group("!", Seq(Group("?", leaf()), Group("*", leaf()), body)) // the yielding element comes last
 			}
 			return Group("!", body)
 		case 11, 12:
